@@ -173,6 +173,19 @@ Example C07_stage6_premises :
   parse false (render e) = Some (tree_of e) /\ parse true (render e) = Some (tree_of e).
 Proof. vm_compute. repeat split; reflexivity. Qed.
 
+(* [wf] is needed: on these excluded shapes the model does not produce the grammar's tree (the real tokenizer
+   rejects them with internalAstError / syntaxError, see the correspondence run):  ++ - a ,  1 ( a ) ,  a ++ ( b ).
+   (The fourth exclusion, a ++ ++, is only needed by the proof: the model happens to build the grammar's tree.) *)
+Example C07_wf_is_needed :
+  let e1 := canon (EPre 0 PInc (EPre 0 PMinus (EId 0 0))) in
+  let e3 := canon (ECall 0 (ENum 0 1) (EId 0 0)) in
+  let e4 := canon (ECall 0 (EPost 0 QInc (EId 0 0)) (EId 0 1)) in
+  (wf e1 || wf e3 || wf e4 = false) /\
+  parse false (render e1) <> Some (tree_of e1) /\ parse true (render e1) <> Some (tree_of e1) /\
+  parse false (render e3) <> Some (tree_of e3) /\ parse true (render e3) <> Some (tree_of e3) /\
+  parse false (render e4) <> Some (tree_of e4) /\ parse true (render e4) <> Some (tree_of e4).
+Proof. vm_compute. repeat split; try reflexivity; intro H; discriminate H. Qed.
+
 (* The premise [labels_ok] is no restriction on expressions: labelling every node token with its position in the
    rendering ([canon], what the correspondence run does) satisfies it, for every expression. *)
 Theorem C07_labels_ok_canon : forall e : expr, labels_ok (canon e) = true.
